@@ -138,6 +138,7 @@ fn dump<'tcx>(tcx: TyCtxt<'tcx>, out: &str) {
     let mut cx = Cx { tcx, strs: vec![], idx: HashMap::new() };
     let mut fns = vec![];
     let mut statics = vec![];
+    let mut consts = vec![];
     for ldid in tcx.hir_body_owners() {
         let did = ldid.to_def_id();
         match tcx.def_kind(did) {
@@ -157,6 +158,11 @@ fn dump<'tcx>(tcx: TyCtxt<'tcx>, out: &str) {
             }
             DefKind::Static { .. } => {
                 statics.push(dump_static(&mut cx, ldid));
+            }
+            DefKind::Const { .. } | DefKind::AssocConst { .. } => {
+                if let Some(c) = dump_const(&mut cx, ldid) {
+                    consts.push(c);
+                }
             }
             _ => {}
         }
@@ -218,6 +224,7 @@ fn dump<'tcx>(tcx: TyCtxt<'tcx>, out: &str) {
         ("adts".into(), J::A(adts)),
         ("impls".into(), J::A(impls)),
         ("statics".into(), J::A(statics)),
+        ("consts".into(), J::A(consts)),
         ("unsafe_blocks".into(), J::A(unsafe_blocks)),
         ("strs".into(), J::A(strs.into_iter().map(J::S).collect())),
     ]);
@@ -233,6 +240,39 @@ fn dump<'tcx>(tcx: TyCtxt<'tcx>, out: &str) {
     let tmp = format!("{}.tmp{}", path, std::process::id());
     std::fs::write(&tmp, buf).expect("jxlv: cannot write facts");
     std::fs::rename(&tmp, &path).expect("jxlv: cannot rename facts");
+}
+
+/// evaluated value of a non-generic `const` / immutable `static`, pretty-printed by rustc (spec tables, magic numbers)
+fn dump_const<'tcx>(cx: &mut Cx<'tcx>, ldid: LocalDefId) -> Option<J> {
+    let tcx = cx.tcx;
+    let did = ldid.to_def_id();
+    if tcx.generics_of(did).requires_monomorphization(tcx) {
+        return None;
+    }
+    if matches!(tcx.def_kind(did), DefKind::Static { .. }) {
+        return None;   // const_eval_poly asserts on statics
+    }
+    let ty = tcx.type_of(did).instantiate_identity().skip_norm_wip();
+    let r = std::panic::catch_unwind(std::panic::AssertUnwindSafe(|| {
+        match tcx.const_eval_poly(did) {
+            Ok(val) => {
+                let c = Const::Val(val, ty);
+                Some(full!(format!("{}", c)))
+            }
+            Err(_) => None,
+        }
+    }));
+    let s = match r {
+        Ok(Some(s)) => s,
+        _ => return None,
+    };
+    let s = if s.len() > 60000 { s[..60000].to_string() } else { s };
+    Some(J::O(vec![
+        ("path".into(), cx.path(did)),
+        ("ty".into(), cx.ty(ty)),
+        ("value".into(), J::S(s)),
+        ("span".into(), cx.span4(tcx.def_span(did))),
+    ]))
 }
 
 fn dump_static<'tcx>(cx: &mut Cx<'tcx>, ldid: LocalDefId) -> J {
